@@ -138,6 +138,8 @@ func badPrim(r *rand.Rand, t reflect.Type, h hint) (interface{}, string) {
 		cs = []cand{{obj, "object-into-string"}, {[]interface{}{"a", "b"}, "list-into-string"}}
 	case "duration":
 		cs = []cand{{"xyz", "string-into-duration"}, {obj, "object-into-duration"}}
+	case "regexp":
+		cs = []cand{{"(", "string-into-regexp"}, {"[a", "string-into-regexp"}, {obj, "object-into-regexp"}}
 	}
 	c := cs[r.Intn(len(cs))]
 	return c.v, c.kind
@@ -335,7 +337,7 @@ func (g *vgen) faultFor(f *field, pre reflect.Value) (*cval, string) {
 // positions lists the configurable field paths in declaration order.
 func positions(st *stype, prefix []*field, out *[][]*field) {
 	for _, f := range st.fields {
-		if f.unexported || f.ignore {
+		if f.unexported || f.ignore || f.kind == kUntouched {
 			continue
 		}
 		p := append(append([]*field{}, prefix...), f)
@@ -409,6 +411,9 @@ type runner struct {
 func (rn *runner) fresh() (reflect.Value, map[uintptr]uintptr) {
 	cp := &copier{twin: map[uintptr]uintptr{}, cfgs: rn.cfgs}
 	p := reflect.New(rn.top.typ)
+	// a pre-filled value that refers to itself: so does its copy
+	cp.made = map[uintptr]reflect.Value{rn.master.Addr().Pointer(): p}
+	cp.twin[rn.master.Addr().Pointer()] = p.Pointer()
 	p.Elem().Set(cp.copy(rn.master))
 	return p, cp.twin
 }
